@@ -72,9 +72,9 @@ ASSUMPTIONS = [
     'the image is a bytes object (values 0..255) of length < 2^32, so that int((len-1)/page_size) computed in '
     'floating point equals integer division (checked by the tie on boundary values)',
     'the UI configuration is an input: progress_cb installed or not, terminate_flashing_cb absent or answering a given '
-    'sequence; error_cb is never read by cflib/bootloader; the callbacks themselves do not raise',
+    'sequence, error_cb installed or not (never read by cflib/bootloader); the callbacks themselves do not raise',
 ]
-PROVED = ('Thirty-nine theorems (C12/Property.v), all closed under the global context. Single image: exact placement, '
+PROVED = ('Forty-two theorems (C12/Property.v), all closed under the global context. Single image: exact placement, '
           'nothing outside its pages, no out-of-range command, other target untouched, refusal before any write, negative '
           'override raises before any flash-write, frame sizes, per-page loads exactly once in order, bounded retry then abort. '
           'Geometry: info packet decoded exactly, only a received matching packet is reported, at most six requests. nRF51 '
@@ -95,7 +95,9 @@ PROVED = ('Thirty-nine theorems (C12/Property.v), all closed under the global co
           'cell is written after hand-over, deferred serialisation equals immediate serialisation; upload_buffer hands over '
           'a new cell per chunk, so its deferred stream is the model\'s frame list; one reused cell is refuted. Receive '
           'streams: against every function nat -> receive result write_flash sends 1..6 commands with one receive each; a '
-          'stream without the answer gives failure after six and six; not counting strays is refuted.')
+          'stream without the answer gives failure after six and six; not counting strays is refuted. error_cb: flash() '
+          'sessions are identical for every UI configuration and never invoke it; the per-image loop stops at the first failed '
+          'image with nothing of the following images sent; swallowing the failure when error_cb is set is refuted.')
 NOT_PROVED = ('zip/manifest parsing (incl. the legacy manifest-v1 rule that adds the distro s110 binary), flash_full / '
               'start_bootloader / _get_boot_delay (need a firmware-side Crazyflie), deck flashing, reset/reconnect (played by '
               'the fake) are not modelled; final content when two selected images overlap on one target is not stated. Loss of buffer-load packets, a target whose real geometry differs from the reported one, and replies '
@@ -103,7 +105,7 @@ NOT_PROVED = ('zip/manifest parsing (incl. the legacy manifest-v1 rule that adds
               'the flush of the next) are outside the model; bytes of the last flash page beyond the image end take '
               'whatever the buffer held (inside the occupied range, allowed by the statement).')
 
-HEADER = ('From CF Require Import Common.Bytes C12.Model C12.Session C12.Plan C12.Callbacks C12.History C12.Alias C12.Stream.\nOpen Scope Z_scope.\n'
+HEADER = ('From CF Require Import Common.Bytes C12.Model C12.Session C12.Plan C12.Callbacks C12.History C12.Alias C12.Stream C12.ErrorCb.\nOpen Scope Z_scope.\n'
           'Fixpoint zr (a : Z) (n : nat) : list Z := match n with O => [] | S k => a :: zr (a + 1) k end.\n'
           'Definition mem (n salt : Z) : list Z := map (fun a => ((a * 7 + salt) * 13 + a / 8) mod 251) (zr 0 (Z.to_nat n)).\n'
           'Definition dg1 (p b : Z) (l : list Z) : Z := fold_left (fun h v => (h * b + v + 1) mod p) l 7.\n'
@@ -270,6 +272,11 @@ def install_callbacks(bl, cb):
     if cb.get('term') is not None:
         seq = list(cb['term'])
         bl.terminate_flashing_cb = lambda: (seq.pop(0) if seq else False)
+    bl.error_cb = None
+    if cb.get('error'):
+        errors = []
+        bl.error_cb = lambda msg: errors.append(str(msg))
+        bl._c12_errors = errors
     return log
 
 
@@ -874,7 +881,7 @@ FEXN = {10: 'KeyError', 11: 'UnknownSoftDevice', 12: 'ConflictingRequirements', 
         15: 'InvalidVersion'}
 
 
-def run_plan_session(case):
+def run_plan_session(case, policy=None):
     """Bootloader.flash(zip, targets) for a generated manifest / target list.  Deck flashing and the firmware restart
     around it are stubbed (recorded); everything else is the real code on the simulated link."""
     import os
@@ -905,6 +912,7 @@ def run_plan_session(case):
             bl._cload.link = link
             bl.warm_booted = bool(case.get('warm'))
             rec['log'] = install_callbacks(bl, case.get('cb'))
+            link.policy = policy
 
             def deck_stub(artifacts, targets, start_index, enable_console_log=False, boot_delay=0.0):
                 rec['deck_calls'].append(([bytes(a.content) for a in artifacts], [tuple(t[:3]) for t in targets]))
@@ -953,6 +961,7 @@ def run_plan_session(case):
             os.remove(path)
         except OSError:
             pass
+    rec['errors'] = list(getattr(bl, '_c12_errors', [])) if bl is not None else []
     return code, detail, link, tg, rec
 
 
@@ -964,7 +973,7 @@ def plan_obs(case):
             out += [1 if deliv else 0, 1 + len(d), h] + list(d)
     for t in tg:
         out += list(t.buf) + list(t.flash) + [1 if t.oob else 0]
-    out += [1 if link.resets else 0, 1 if rec['deck_calls'] else 0]
+    out += [1 if link.resets else 0, 1 if rec['deck_calls'] else 0, len(rec['errors'])]
     return out, code, detail, link, tg, rec
 
 
@@ -1005,12 +1014,13 @@ def plan_term(case):
     for k, t in enumerate(case['targets']):
         tgs.append('(mkT %d %d %d %d (mem %d %d) (mem %d %d) false)' % (
             t['id'], t['ps'], t['bp'], t['fp'], t['ps'] * t['bp'], 3 + k, t['ps'] * t['fp'], 101 + k))
-    return ('let r := run_plan_cb %s (flash_plan %d %s %s [%s] %s) %s in '
-            'let \'(o, s, tr, cs, rb) := r in '
+    return ('let r := flash_session_e false (mkUi %s %s) (flash_plan %d %s %s [%s] %s) %s in '
+            'let \'(o, s, tr, cs, rb, ne) := r in '
             '[scode o] ++ trace_obs tr ++ '
             'concat (map (fun T => let T1 := deliver T tr in t_buf T1 ++ t_flash T1 ++ [if t_oob T1 then 1 else 0]) [%s]) ++ '
-            '[if rb then 1 else 0; if (match o with SDone => true | _ => false end) && deck_phase %s %s then 1 else 0]'
-            % (coqrun.coq_bool(bool((case.get('cb') or {}).get('progress'))), platform, cache(0), cache(1), '; '.join(arts),
+            '[if rb then 1 else 0; if (match o with SDone => true | _ => false end) && deck_phase %s %s then 1 else 0; Z.of_nat ne]'
+            % (coqrun.coq_bool(bool((case.get('cb') or {}).get('progress'))),
+               coqrun.coq_bool(bool((case.get('cb') or {}).get('error'))), platform, cache(0), cache(1), '; '.join(arts),
                sels, scr, '; '.join(tgs), coqrun.coq_bool(bool(case.get('warm'))), sels))
 
 
@@ -1089,6 +1099,8 @@ def gen_plan_case(rng):
     if rng.random() < 0.5:
         # the UI configuration: progress callback, and a terminate callback that never asks to stop
         c['cb'] = {'progress': rng.random() < 0.85, 'term': None if rng.random() < 0.5 else []}
+    if rng.random() < 0.5:
+        c.setdefault('cb', {'progress': False, 'term': None})['error'] = True     # an error callback is installed
     return c
 
 
@@ -1237,7 +1249,7 @@ def corpus_plan_entries():
     out = []
     for p in sorted(glob.glob(os.path.join(coqrun.VERIF, 'corpus', 'C12', 'plan', '*.json'))):
         d = json.load(open(p))
-        out.append((d['case'], d.get('class_when_found')))
+        out.append((d['case'], d.get('fault')))
     return out
 
 
@@ -1758,6 +1770,7 @@ class Policy:
         self.calls = []        # per call: {'frame', 'attempts', 'delivered', 'pos_ack'}
 
     def __call__(self, frame):
+        addr = self.addr if self.addr is not None else frame[0]     # sessions: the target the command names
         if frame != self.last:
             self.call += 1
             self.att = 0
@@ -1768,28 +1781,28 @@ class Policy:
         rec = self.calls[-1]
         rec['attempts'] += 1
         f = self.fault
-        a = att_ok(self.addr)
+        a = att_ok(addr)
         if f and self.call >= f['call'] and (f.get('only_call') is not True or self.call == f['call']):
             kind = f['kind']
             if kind == 'lost_forever':
                 a = att_lost_up() if f.get('up', True) else att_lost_reply()
             elif kind == 'negative':
-                a = att_neg(self.addr, f.get('code', 5), f.get('exec', False))
+                a = att_neg(addr, f.get('code', 5), f.get('exec', False))
             elif kind == 'stray_flood':
                 # the command goes unanswered while the link delivers OTHER packets on every listen, for k listens
                 a = {'deliv': bool(f.get('exec', False)), 'intime': [], 'late': [],
-                     'flood': {'pkts': stray_packets(self.addr, f.get('strays', 0)), 'k': f.get('k', 300)}}
+                     'flood': {'pkts': stray_packets(addr, f.get('strays', 0)), 'k': f.get('k', 300)}}
             elif kind == 'lost_k' and self.call == f['call']:
                 if self.att < f['k']:
                     a = att_lost_up() if f.get('up', True) else att_lost_reply()
             elif kind == 'late_k' and self.call == f['call']:
                 if self.att < f['k']:
-                    a = att_late(self.addr)
+                    a = att_late(addr)
             elif kind == 'foreign' and self.call == f['call']:
                 if self.att < f['k']:
-                    a = {'deliv': True, 'intime': [[0xFF, [self.addr ^ 1, 0x18, 1, 0]]], 'late': []}
+                    a = {'deliv': True, 'intime': [[0xFF, [addr ^ 1, 0x18, 1, 0]]], 'late': []}
         rec['delivered'] += bool(a['deliv'])
-        rec['pos_ack'] += sum(1 for p in a['intime'] + a['late'] if p[1][:3] == [self.addr, 0x18, 1])
+        rec['pos_ack'] += sum(1 for p in a['intime'] + a['late'] if p[1][:3] == [addr, 0x18, 1])
         return a
 
 
@@ -2020,7 +2033,7 @@ def check_session(case):
     return None
 
 
-def check_plan_session(case):
+def check_plan_session(case, fault=None):
     """Property text for flash(zip, targets) on the final flash images of all targets: every flashed firmware artifact
     lies exactly at the start page its target reported at that time (after the reboot if there was one), nothing outside the
     union of the flashed images' page ranges (plus the bootloader+softdevice step) is written on any target, frames are
@@ -2028,14 +2041,31 @@ def check_plan_session(case):
     files = case['files']
     if any(f['type'] == 'bootloader+softdevice' and f['target'] != 'nrf51' for f in files):
         return None            # a soft device addressed to another MCU: exercised by the tie only
-    code, detail, link, tg, rec = run_plan_session(case)
+    pol = Policy(None, fault) if fault is not None else None
+    code, detail, link, tg, rec = run_plan_session(case, policy=pol)
     init = build_targets(case)
 
     def fail(cls, expected, observed, detail_):
-        return {'class': cls, 'case': {'kind': 'plan', 'case': case}, 'expected': expected, 'observed': observed,
+        return {'class': cls, 'case': {'kind': 'plan', 'case': case, 'fault': fault}, 'expected': expected, 'observed': observed,
                 'detail': detail_}
+    if code == 98 and 'listen budget' in detail:
+        return fail('flash_write_not_bounded', 'abort after a bounded number of attempts', detail, '')
     if code >= 98:
         return fail('session_unexpected_exception', 'success or a flashing error', detail, '')
+    if pol is not None:
+        # "a flash-write that fails or goes unanswered ... aborts the flashing with an error instead of continuing":
+        # whatever callbacks are installed, flash() must raise and nothing more may be sent to any target's flash
+        for k, rc in enumerate(pol.calls):
+            if rc['pos_ack'] == 0:
+                last = max(i for i, (h, d, dl) in enumerate(link.sent) if d == rc['frame'])
+                later = [(d[0], d[1]) for (h, d, dl) in link.sent[last + 1:] if h == 0xFF and len(d) >= 2 and d[1] in (0x14, 0x18)]
+                if code == 0 or later:
+                    return fail('continued_after_failed_write', 'flash() raises and sends nothing more after the failed flash-write',
+                                {'outcome': CODES.get(code) or FEXN.get(code, code), 'write_call': k, 'target': rc['frame'][0],
+                                 'frames_sent_afterwards': len(later), 'to_targets': sorted(set(x[0] for x in later)),
+                                 'error_cb_calls': len(rec['errors']), 'callbacks': case.get('cb')},
+                                'a flash-write that was never positively acknowledged did not abort the flashing')
+                break
     if any(t.oob for t in tg):
         return fail('command_out_of_range', 'all commands inside buffer and flash', 'out-of-range command', '')
     for (h, d, deliv) in link.sent:
@@ -2142,9 +2172,26 @@ def oracle_extra(ctx, deep, rng):
         if r and not any(x['class'] == r['class'] for x in fails):
             fails.append(r)
     plan_cases = [c for (c, f) in corpus_plan_entries()] + [gen_plan_case(rng) for _ in range(ctx.scale(250, 3000) * (2 if deep else 1))]
+    for (c, f) in corpus_plan_entries():
+        if f is not None:
+            n += 1
+            r = check_plan_session(c, f)
+            if r and not any(x['class'] == r['class'] for x in fails):
+                fails.append(r)
     for c in plan_cases:
         n += 1
         r = check_plan_session(c)
+        if r and not any(x['class'] == r['class'] for x in fails):
+            fails.append(shrink_plan(r))
+    # multi-image sessions with a failing flash-write in the first / a middle / the last image, under every callback
+    # configuration (progress_cb, error_cb, terminate callback that never stops)
+    for k in range(ctx.scale(160, 2000) * (2 if deep else 1)):
+        c = gen_multi_image_case(rng)
+        kind = SFAULT_KINDS[k % len(SFAULT_KINDS)]
+        f = dict(kind, call=rng.randrange(0, 4))
+        c['cb'] = {'progress': k % 2 == 0, 'error': (k // 2) % 2 == 0, 'term': None if k % 3 else []}
+        n += 1
+        r = check_plan_session(c, f)
         if r and not any(x['class'] == r['class'] for x in fails):
             fails.append(shrink_plan(r))
     for k in range(ctx.scale(200, 2000)):
@@ -2211,6 +2258,30 @@ def shrink_history(failure):
     return best
 
 
+SFAULT_KINDS = [{'kind': 'negative'}, {'kind': 'lost_forever'}, {'kind': 'negative', 'exec': True, 'code': 1},
+                {'kind': 'lost_forever', 'up': False}, {'kind': 'stray_flood', 'k': 300, 'strays': 1}]
+
+
+def gen_multi_image_case(rng):
+    """A zip with two to four MCU firmware images for both targets (no soft device), everything fits."""
+    for _ in range(200):
+        c = gen_plan_case(rng)
+        fw = [f for f in c['files'] if f['platform'] == 'cf2' and f['type'] == 'fw' and f['target'] in ('stm32', 'nrf51')]
+        rep = {int(k): v for k, v in c['reports'].items()}
+        if len(fw) >= 2 and len({f['target'] for f in fw}) == 2 and rep[STM][0][4][:1] == [0x10] and \
+                not any(f['type'] == 'bootloader+softdevice' for f in c['files']) and rep[NRF][0][3] in (88, 108):
+            c['script'] = []
+            c['select'] = []
+            for f in fw:
+                if f['target'] == 'nrf51':
+                    f['requires'] = ['sd-s110' if rep[NRF][0][3] == 88 else 'sd-s130']
+            for k2 in rep:
+                for r in rep[k2]:
+                    r[4] = [0x10]
+            return c
+    return c
+
+
 def shrink_plan(failure):
     """Drop files / selections / script / image bytes while the same class fails."""
     import copy
@@ -2241,7 +2312,7 @@ def shrink_plan(failure):
         progressed = False
         for c2 in cands:
             try:
-                r = check_plan_session(c2)
+                r = check_plan_session(c2, best['case'].get('fault'))
             except Exception:
                 r = None
             if r is not None and r['class'] == cls:
@@ -2363,7 +2434,7 @@ def replay(payload, ctx):
     if c.get('kind') == 'session':
         return check_session(c['case'])
     if c.get('kind') == 'plan':
-        return check_plan_session(c['case'])
+        return check_plan_session(c['case'], c.get('fault'))
     if c.get('kind') == 'read':
         return check_read_case(c['case'])
     if c.get('kind') == 'stream':
